@@ -162,6 +162,9 @@ std::optional<Payload> decode_payload_v1(MessageType type,
             if (remaining < needed) {
                 return std::nullopt;
             }
+            if (*(data) > 1) {
+                return std::nullopt;
+            }
             AcknowledgePayload payload{};
             payload.accepted = *(data) != 0;
             payload.chunk_id = parse_chunk_id(data + 1);
@@ -182,6 +185,9 @@ std::optional<Payload> decode_payload_v1(MessageType type,
         case MessageType::HandshakeAck: {
             const auto needed = 1 + 1 + 4;
             if (remaining < needed) {
+                return std::nullopt;
+            }
+            if (*(data) > 1) {
                 return std::nullopt;
             }
             HandshakeAckPayload payload{};
